@@ -432,8 +432,32 @@ def rule_cube_exits(rep, repo):
     happened on both.  Value graphs at each return (in-place `*=` is a rebinding in the graph)."""
     from gridlint import e5
     f = repo.method("UniformGrid", "from_cube")
-    vg = e5.VG(repo, "UniformGrid", f.node, inline=False)
-    vg.run(strip_docstring(f.node.body))
+    import copy
+
+    class Unroll(ast.NodeTransformer):
+        """`for v in (a, b, c): v *= K` updates the arrays a, b, c in place through the loop variable: unrolled into
+        `a *= K; b *= K; c *= K` so that the value graph sees the rebinding; any other in-place update of a loop variable
+        is outside what the graph can follow."""
+        def visit_For(self, n):
+            self.generic_visit(n)
+            aug = [x for x in ast.walk(n) if isinstance(x, ast.AugAssign) and isinstance(n.target, ast.Name)
+                   and norm(x.target) == n.target.id]
+            if not aug:
+                return n
+            if isinstance(n.iter, (ast.Tuple, ast.List)) and all(isinstance(e_, ast.Name) for e_ in n.iter.elts) and \
+                    not n.orelse and all(isinstance(b_, ast.AugAssign) and norm(b_.target) == n.target.id for b_ in n.body):
+                out = []
+                for e_ in n.iter.elts:
+                    for b_ in n.body:
+                        c_ = copy.deepcopy(b_)
+                        c_.target = ast.copy_location(ast.Name(id=e_.id, ctx=ast.Store()), b_.target)
+                        out.append(c_)
+                return out
+            raise AnalysisError(f"unrecognised idiom in from_cube: the loop variable `{n.target.id}` is updated in place "
+                                f"(`{norm(aug[0])[:50]}`); cannot tell which arrays are converted at each exit")
+    node = ast.fix_missing_locations(Unroll().visit(copy.deepcopy(f.node)))
+    vg = e5.VG(repo, "UniformGrid", node, inline=False)
+    vg.run(strip_docstring(node.body))
     if vg.ret is None:
         raise AnalysisError("unrecognised idiom: from_cube has no return value graph")
     ctor = []
